@@ -30,8 +30,13 @@ def get_lindblad_operators(
         c = math.sqrt(noise_model.dephasing_rate / 2)
         dephasing = torch.zeros(dim, dim, dtype=dtype)
 
-        dephasing[0, 0] = c
-        dephasing[1, 1] = -c
+        if dim == 2:
+            dephasing[0, 0] = c
+            dephasing[1, 1] = -c
+        else:
+            # with a leakage level, sigma_z on the two computational levels is
+            # not Pulser's channel sqrt(2*rate)|r><r| (resp. |d><d| in XY)
+            dephasing[1, 1] = math.sqrt(2 * noise_model.dephasing_rate)
 
         return [dephasing]
 
